@@ -220,7 +220,7 @@ Proof.
   intros I H. inv_step H. destruct (holding_is s id) eqn:Hh; [|discriminate]. simpl in H.
   destruct (is_up s) eqn:Hu; [|discriminate]. simpl in H.
   destruct (mem_id id (inflight s)) eqn:Hm; [discriminate|]. simpl in H.
-  destruct (lookup id (calls s)) as [c|] eqn:L; [|discriminate]. injection H as <-.
+  destruct (lookup id (calls s)) as [c|] eqn:L; [|discriminate]. destruct (registered c) eqn:Rg; [discriminate|]. injection H as <-.
   destruct (inv_holding s I id Hh) as (c' & L' & P). rewrite L in L'. injection L' as <-.
   destruct (inv_phase s I id c L) as (P1 & P2 & P3 & P4 & P5).
   unfold mem_id in Hm. destruct (find_att id (inflight s)) eqn:Hf0; [discriminate|].
@@ -612,7 +612,7 @@ Proof.
   - (* LoopRegister *)
     destruct (holding_is s id0); [|discriminate]. simpl in H. destruct (is_up s); [|discriminate]. simpl in H.
     destruct (mem_id id0 (inflight s)) eqn:Mm; [discriminate|]. simpl in H.
-    destruct (lookup id0 (calls s)) as [c0|] eqn:L; [|discriminate]. injection H as <-. proj.
+    destruct (lookup id0 (calls s)) as [c0|] eqn:L; [|discriminate]. destruct (registered c0); [discriminate|]. injection H as <-. proj.
     rewrite (lookup_update _ _ _ _ _ L) in Hc. rewrite find_cons. destruct (id =? id0) eqn:E.
     + apply N.eqb_eq in E; subst id. injection Hc as <-. rewrite N.eqb_refl. simpl in Ha. subst att. apply Nat.eqb_refl.
     + rewrite N.eqb_sym, E. exact (Lk id att c He Hc Ha Hp).
@@ -718,9 +718,9 @@ Inductive change (s : st) (id : N) : option call -> option call -> Prop :=
 | ch_same x : change s id x x
 | ch_fresh rt : change s id None (Some (fresh rt))
 | ch_taken c : ph c = PEnq -> change s id (Some c) (Some (with_ph PTaken c))
-| ch_failfast c : change s id (Some c) (Some (with_ph PWait (push ConnErr c)))
+| ch_failfast c : holding_is s id = true -> change s id (Some c) (Some (with_ph PWait (push ConnErr c)))
 | ch_registered c : is_up s = true -> change s id (Some c) (Some (set_registered c))
-| ch_sent c : registered c = true -> change s id (Some c) (Some (sent c))
+| ch_sent c : registered c = true -> holding_is s id = true -> change s id (Some c) (Some (sent c))
 | ch_genuine c att : exe s = ELooked id att -> change s id (Some c) (Some (push_att att Genuine c))
 | ch_connerr c att : find_att id (inflight s) = Some att -> change s id (Some c) (Some (push_att att ConnErr c))
 | ch_received c r : ph c = PWait -> In r (mbox c) -> change s id (Some c) (Some (received r c))
@@ -747,14 +747,14 @@ Proof.
     destruct (lookup id (calls s)) as [c|] eqn:L; [|discriminate]. destruct (ph c) eqn:P; try discriminate.
     injection H as <-. upd_change L i id. apply ch_taken; exact P.
   - destruct (is_exited s); [discriminate|]. destruct (holding s); [discriminate|]. injection H as <-. apply ch_same.
-  - destruct (holding_is s id); [|discriminate]. destruct (lookup id (calls s)) as [c|] eqn:L; [|discriminate].
-    injection H as <-. upd_change L i id. apply ch_failfast.
+  - destruct (holding_is s id) eqn:Hh; [|discriminate]. destruct (lookup id (calls s)) as [c|] eqn:L; [|discriminate].
+    injection H as <-. upd_change L i id. apply ch_failfast. exact Hh.
   - destruct (holding_is s id); [|discriminate]. simpl in H. destruct (is_up s) eqn:Hu; [|discriminate]. simpl in H.
     destruct (mem_id id (inflight s)); [discriminate|]. simpl in H.
-    destruct (lookup id (calls s)) as [c|] eqn:L; [|discriminate]. injection H as <-. upd_change L i id.
+    destruct (lookup id (calls s)) as [c|] eqn:L; [|discriminate]. destruct (registered c); [discriminate|]. injection H as <-. upd_change L i id.
     apply ch_registered; exact Hu.
-  - destruct (holding_is s id); [|discriminate]. destruct (lookup id (calls s)) as [c|] eqn:L; [|discriminate].
-    destruct (registered c) eqn:R; [|discriminate]. injection H as <-. upd_change L i id. apply ch_sent; exact R.
+  - destruct (holding_is s id) eqn:Hh; [|discriminate]. destruct (lookup id (calls s)) as [c|] eqn:L; [|discriminate].
+    destruct (registered c) eqn:R; [|discriminate]. injection H as <-. upd_change L i id. apply ch_sent; [exact R|exact Hh].
   - destruct (holding s) as [[|]|]; try discriminate. injection H as <-. apply ch_same.
   - destruct (exe s); try discriminate. destruct (find_att id (inflight s)); destruct found; try discriminate;
       injection H as <-; apply ch_same.
@@ -803,7 +803,7 @@ Lemma prov_step s e s' : Inv s -> Prov s -> step repaired_c s e = Some s' -> Pro
 Proof.
   intros I P H id c' Hc' Hg. pose proof (step_call_change s e s' id H) as Ch. rewrite Hc' in Ch.
   remember (lookup id (calls s)) as o eqn:Ho. remember (Some c') as o' eqn:Ho'. symmetry in Ho.
-  destruct Ch as [x|rt|c Hp|c|c Hu|c Hr|c att He|c att Hf|c r Hp Hin|c Hp He|c Hgo Hrt|c Hp]; try (injection Ho' as <-).
+  destruct Ch as [x|rt|c Hp|c Hh|c Hu|c Hr Hh|c att He|c att Hf|c r Hp Hin|c Hp He|c Hgo Hrt|c Hp]; try (injection Ho' as <-).
   - subst x. eapply P; eauto.
   - simpl in Hg. destruct Hg as [[]|Hg]; discriminate.
   - simpl in *. eapply P; eauto.
@@ -844,7 +844,7 @@ Theorem attempts_change s e s' id c c' :
 Proof.
   intros H Hc Hc'. pose proof (step_call_change s e s' id H) as Ch. rewrite Hc, Hc' in Ch.
   remember (Some c) as o eqn:Ho. remember (Some c') as o' eqn:Ho'.
-  destruct Ch as [x|rt|c0 Hp|c0|c0 Hu|c0 Hr|c0 att He|c0 att Hf|c0 r Hp Hin|c0 Hp He|c0 Hgo Hrt|c0 Hp];
+  destruct Ch as [x|rt|c0 Hp|c0 Hh|c0 Hu|c0 Hr Hh|c0 att He|c0 att Hf|c0 r Hp Hin|c0 Hp He|c0 Hgo Hrt|c0 Hp];
     try discriminate; try (injection Ho' as <-); try (injection Ho as <-); simpl; auto.
   - subst x. injection Ho' as <-. auto.
   - left. apply (push_att_fields att Genuine c0).
